@@ -79,7 +79,7 @@ func (v *verifier) lemmaObligations(p string) []*Obligation {
 			tr.uses[r] = true
 		}
 		tr.preludeHeaps(v.prelude.Mods[l.module].Requires)
-		tr.items = append(tr.items, item{replaceLits(l.before, tr), false})
+		tr.items = append(tr.items, item{text: replaceLits(l.before, tr), isHyp: false})
 		o := &Obligation{Name: "spec/lemma[" + l.module + "." + l.name + "]", Fn: "spec", Kind: "lemma", Goal: l.body, Pos: len(tr.items), Props: l.props, Src: l.body, tr: tr}
 		if len(o.Src) > 300 {
 			o.Src = o.Src[:300] + "..."
